@@ -149,6 +149,7 @@ func c13Run(c *Ctx) {
 		}
 	}
 	style := gen.DrawXStyle(c.L("style"))
+	style.EqSpace = c.L("style:x").Chance(1, 4)
 	c.Descf("style: %+v", style)
 	pkt := rec.Serialise(g, style)
 	container := cfg.Intn(4) // 0,1: direct; 2: JPEG APP1; 3: CR3 xpacket
